@@ -199,8 +199,8 @@ def program_strategy(cfg: GenCfg):
                 items.append(draw(op_item(i, items, depth)))
                 remaining -= 1
         c: Dict[str, Any] = {"reps": reps, "items": items}
-        if reps > 1 and cfg.reg_reps and draw(st.booleans()):
-            c["rmode"] = "reg"
+        if cfg.reg_reps and (depth > 0 or cfg.top_reps) and (draw(st.booleans()) if reps > 1 else draw(st.integers(0, 3)) == 0):
+            c["rmode"] = "reg"          # (also a registry-provided count of exactly 1)
         return c
 
     @st.composite
@@ -234,6 +234,7 @@ class Built:
         self.links: Dict[Tuple[int, ...], Any] = {}       # path -> RelationLink object given to the constructor
         self.passed: Dict[Tuple[int, ...], Any] = {}      # path -> object handed to add()
         self.rep_key: Optional[str] = None                # when set: every registry-provided count uses this one key
+        self.rep_values: Dict[str, int] = {}              # registry key -> count the program asks for
 
 
 def _classes():
@@ -257,8 +258,9 @@ def global_override(g):
     })
 
 
-def build(program, built: Optional[Built] = None) -> Built:
-    """Interpret the whole program. Call inside `global_override(program['g'])`."""
+def build(program, built: Optional[Built] = None, peek=None) -> Built:
+    """Interpret the whole program. Call inside `global_override(program['g'])`.
+    `peek(decl, path_of_next_item, item)` is called before every add (a user looking at the circuit while building it)."""
     from qce_circuit.language.declarative_circuit import DeclarativeCircuit
     from qce_circuit.structure.registry_duration import DurationRegistry
     from qce_circuit.structure.registry_repetition import (
@@ -279,6 +281,7 @@ def build(program, built: Optional[Built] = None) -> Built:
             else:
                 key = "r" + "_".join(map(str, path))
                 b.repetition_registry.set_registry_at(key, reps)
+                b.rep_values[key] = reps
             return DeclarativeCircuit(repetition_strategy=RegistryRepetitionStrategy(b.repetition_registry, key))
         if reps != 1:
             return DeclarativeCircuit(repetition_strategy=FixedRepetitionStrategy(repetitions=reps))
@@ -291,9 +294,13 @@ def build(program, built: Optional[Built] = None) -> Built:
             if is_sub(it):
                 child = make_decl(it["sub"], p)
                 fill(child, it["sub"], p, ancestors + [decl])
+                if peek is not None:
+                    peek(decl, p, it)
                 b.passed[p] = child
                 b.handles[p] = decl.add(child)
             else:
+                if peek is not None:
+                    peek(decl, p, it)
                 op = make_operation(it, p, path, decl, ancestors, b)
                 b.passed[p] = op
                 b.handles[p] = decl.add(op)
